@@ -44,6 +44,11 @@ CLAIMED = {
         text="Unbounded theorems: with tolerance -1 try_reuse answers None in every cache state; over every history of add_glyph calls a reuse answer names a glyph that was added, with the same normal form, carrying exactly the affine the recogniser returned for that donor, and that affine fits Fixed 16.16 (otherwise the caller takes the un-reused branch); wrapping a donor in R while pre-composing a gradient transform with R^-1 leaves the gradient where it was (any field, det R != 0). The cache model is tied to GlyphReuseCache by replaying random operation sequences with picosvg's answers recorded as oracle tables. The property's own observation is run end to end: identical generated sources (recurring shapes under isometries, non-uniform scale, large translation, near misses, tiny donors, gradients on reused shapes) built with reuse on and off in COLRv1/COLRv0 are compared glyph by glyph, layer by layer. Found and fixed: COLRv0 layer order depended on reuse (F11); known: tolerance 0 crashes (F10).",
         ref="DESIGN.md 8 C06",
     ),
+    "C07": dict(
+        technique="machine-checked proof in Coq (validity of the SVG document list produced by the reshuffle; strike runs and offsets) + executable Coq validity predicates evaluated by vm_compute on tables abstracted from every built font + load/decompile/re-save/reload comparison",
+        text="Unbounded theorems: the reshuffle's (first gid, count) ranges of non-empty groups are sorted by start, pairwise disjoint and inside the glyph set; CBDT strikes index maximal runs of consecutive gids with exactly one bitmap per glyph; offsets contiguous. The table constraints themselves (SVG document list, COLR base records strictly increasing with every glyph/layer/palette reference in range, CBLC strikes, hmtx/outlines/maxp/post/cmap agreement) are executable Coq predicates evaluated on an abstraction of every font built in all 13 formats (.ttf/.otf); each font is loaded with lazy=False, fully decompiled, re-saved, reloaded and compared table by table; SVG documents are checked for unique ids, in-document hrefs and no cross-glyph references; post format per flavour.",
+        ref="DESIGN.md 8 C07",
+    ),
     "C10": dict(
         technique="machine-checked proof in Coq (round-trip theorems for the csv dialect pair, the %04x codec and GlyphMapping rows, with refutation witnesses for the side conditions) + correspondence by vm_compute + field-coverage table from the source",
         text="Unbounded theorems: read_text(write_rows rs) = rs for all rows whose fields have no CR/LF and no unquoted leading space (both conditions shown necessary by machine-checked counter-examples = known finding F4); parse_hex(hex04 n) = n for every n; parse_row(csv_row g) = g for every GlyphMapping incl. the empty codepoint list. The csv model (a state machine) is tied to Python's csv module and to glyphmap.csv_line/load_from by evaluating it in Coq on random rows and arbitrary text. Config precedence and write/load symmetry are exercised for every FontConfig field x {neither,file,flag,both} with real absl flags; a table extracted from config.py's ast requires every field to be written, read, flagged and passed on. File-name recovery, glyph-name legality/distinctness (known finding F3), parts JSON and response files are checked on samples.",
